@@ -29,6 +29,25 @@ CHECKS.update({
             'several try blocks per run; oracle = reference interpreter resolving choice points by backtracking.', '3/C02'),
 })
 
+CHECKS.update({
+    'C03': ('Hypothesis program generator (all flavours/control flow, checked + unchecked builds); invariant on the VM outcome: never a committed halt',
+            'Generated-input search; the oracle is an invariant of the execution (no halt with an empty choice stack), decided '
+            'exactly per run by the backtracking VM with state-cycle detection.', '3/C03'),
+    'C09': ('exhaustive boundary-grid enumeration of operator x operand types x operand pairs x usage position x word size vs harness arithmetic',
+            'The listed domain (operators x boundary grid x positions x word sizes) is finite and enumerated completely on '
+            'every run; random extra operands widen it in the thorough tier.', '3/C09'),
+    'C13': ('enumeration of all single bytes / byte pairs / char literals + Hypothesis strings and constant arrays; static data-section and dynamic print/index/length oracles',
+            'Single bytes and char literals exhaustively, pairs exhaustively in the thorough tier; longer strings and arrays '
+            'sampled. The assembler acceptance and byte-exact round trip are cheap, exact oracles.', '3/C13'),
+    'C14': ('Hypothesis constant-expression trees with de-constified twins; differential VM output vs run-time reference semantics',
+            'Metamorphic/differential search over constant expressions and their run-time twins (any subset of leaves '
+            'de-constified), oracle = reference interpreter with run-time semantics.', '3/C14'),
+    'C15': ('Hypothesis program generator; differential checked vs unchecked build on the VM for fault-free runs',
+            'Differential between the two builds of the same program on the same VM; no model needed.', '3/C15'),
+    'C18': ('metamorphic: byte-identical builds across processes/hash seeds, event streams equal across stack sizes, word sizes (when values fit) and lint',
+            'Metamorphic relations over configurations on generated programs and the example corpus.', '3/C18'),
+})
+
 NOT_YET = {}
 
 
